@@ -20,47 +20,321 @@ from core.inline_stmt import inline_view
 
 from .c11_coll import Collections
 from .c11_lib import Fn, names_loaded, show
-from .common import assigned_names, cfg_of, conds, dotted, guard_formula, truth, is_attr_call, loop_carried, loops_around, stmt_of, types_of, upward_exposed, where
-from .tables import EVAL_GRAPH, EXPLICIT_QUERY, MATCHER, OTHER_QUERIES, RULE, SEARCHES
+from .c11_prov import Provenance, field_key
+from .common import reachable_funcs, assigned_names, cfg_of, conds, dotted, guard_formula, truth, is_attr_call, loop_carried, loops_around, stmt_of, types_of, upward_exposed, where
+from .tables import EVAL_GRAPH, EXPLICIT_QUERY, MATCHER, MODREQ, OTHER_QUERIES, RULE, SEARCHES
 
 EVAL_ARCH = "pytestarch.eval_structure.evaluable_architecture"
 
 CONVERTER = "pytestarch.eval_structure.module_name_converter"
 
 
+# --------------------------------------------------------------------------------------------------------------- C11.R1
+
+CONVERT_FQ = f"{CONVERTER}::ModuleNameConverter.convert"
+QUERIES = (EXPLICIT_QUERY, *OTHER_QUERIES)
+
+
+def _matcher_classes(repo: Repo) -> list:
+    base = repo.cls(MATCHER, "RuleMatcher")
+    return [base, *repo.subclasses(base)]
+
+
+def _allow_r1(caller: FuncInfo, callee: FuncInfo) -> bool:
+    """Inline the matcher's own helpers (wherever they live); the conversion stays a call, and the consumers of the converted
+    requirement (detectors, message generators, requirement classes, the evaluable) are not part of the pipeline under test."""
+    if callee.fq == CONVERT_FQ:
+        return False
+    if callee.cls is None:
+        return callee.module.name not in (SEARCHES,)
+    repo = callee.module.repo  # type: ignore[attr-defined]
+    return callee.cls in _matcher_classes(repo)
+
+
+def _allow_all(caller: FuncInfo, callee: FuncInfo) -> bool:
+    return True
+
+
+def _members(t) -> list:
+    return list(t[1]) if t[0] == "union" else [t]
+
+
+def _carrying(repo: Repo, t) -> bool:
+    """Static type of something that carries module filters: a ModuleRequirement or a collection of ModuleFilter."""
+    for m in _members(t):
+        if m[0] == "cls":
+            ci = repo.classes.get(m[1])
+            if ci is not None and (ci.name == "ModuleRequirement" or any(c.name == "ModuleFilter" for c in repo.mro(ci))):
+                return True
+        if m[0] == "b" and m[1] in ("list", "seq", "set", "iter", "tuple", "frozenset") and m[2]:
+            if any(_carrying(repo, x) for x in m[2] if isinstance(x, tuple)):
+                return True
+    return False
+
+
+def _scalar_type(t) -> bool:
+    ms = _members(t)
+    return bool(ms) and all(m[0] == "b" and m[1] in ("bool", "str", "int", "none", "float") for m in ms)
+
+
+def _allow_outside_matcher(caller: FuncInfo, callee: FuncInfo) -> bool:
+    repo = callee.module.repo  # type: ignore[attr-defined]
+    return callee.cls is None or callee.cls not in _matcher_classes(repo)
+
+
+def _entry_points(repo: Repo) -> tuple[list[FuncInfo], bool, str]:
+    """(methods of the matcher hierarchy that Rule.assert_applies runs on the evaluable, is the matcher provably created anew for
+    every assert_applies call, why not)."""
+    T = types_of(repo)
+    rule = repo.cls(RULE, "Rule")
+    aa = rule.methods.get("assert_applies")
+    if aa is None:
+        raise AnalysisError("Rule.assert_applies not found")
+    view = inline_view(repo, aa, T, allow=_allow_outside_matcher)
+    fn = Fn(repo, view)
+    classes = _matcher_classes(repo)
+    ev = view.param_names[1] if len(view.param_names) > 1 else ""
+
+    def creates_matcher(v: ast.AST | None) -> bool:
+        if not isinstance(v, ast.Call):
+            return False
+        cs, how = fn.callees(v)
+        return bool(cs) and all(f.cls in classes and f.name in ("__init__", "__post_init__") for f in cs)
+
+    def is_matcher(e: ast.AST) -> bool:
+        if any(m[0] == "cls" and repo.classes.get(m[1]) in classes for m in _members(fn.type_of(e))):
+            return True
+        if isinstance(e, ast.Name):
+            defs = fn.reaching(e.id, e)
+            return bool(defs) and any(d.kind == "assign" and (creates_matcher(d.value) or (d.value is not None and is_matcher(d.value))) for d in defs)
+        return False
+
+    entries: list[FuncInfo] = []
+    fresh, why = True, ""
+    found = False
+    for c in own_nodes(view.node):
+        if not isinstance(c, ast.Call) or not isinstance(c.func, ast.Attribute):
+            continue
+        if not any(isinstance(a, ast.Name) and a.id == ev for a in [*c.args, *[k.value for k in c.keywords]]):
+            continue
+        recv = c.func.value
+        if not is_matcher(recv):
+            continue
+        impls = [f for f in repo.implementations(classes[0], c.func.attr) if not f.is_abstract]
+        if not impls:
+            continue
+        found = True
+        for f in impls:
+            if f not in entries:
+                entries.append(f)
+        if not isinstance(recv, ast.Name):
+            fresh, why = False, f"the matcher is kept in `{norm(recv)}` of the rule object and used again"
+            continue
+        for d in fn.reaching(recv.id, recv):
+            if not (d.kind == "assign" and creates_matcher(d.value)):
+                fresh, why = False, f"the matcher `{recv.id}` is `{norm(d.value) if d.value is not None else d.kind}`, not an object created for this call"
+    if not found:
+        raise AnalysisError("Rule.assert_applies: the call that runs the rule matcher on the evaluable was not found")
+    return entries, fresh, why
+
+
+def _query_call(fn: Fn, c: ast.Call, ev: str) -> bool:
+    """Is `c` a call of one of the three public graph queries on the evaluable parameter (directly or through a local alias)?"""
+
+    def is_q(e: ast.AST) -> bool:
+        return isinstance(e, ast.Attribute) and e.attr in QUERIES and isinstance(e.value, ast.Name) and e.value.id == ev
+
+    if is_q(c.func):
+        return True
+    if isinstance(c.func, ast.Name):
+        defs = fn.reaching(c.func.id, c.func)
+        return bool(defs) and all(d.kind == "assign" and d.value is not None and is_q(d.value) for d in defs)
+    return False
+
+
+def _requirement_sides(repo: Repo) -> tuple[dict[str, set[str]], list[str]]:
+    """accessor (property / field of ModuleRequirement) -> constructor parameters whose value it may return; the two
+    filter-list constructor parameters."""
+    req = repo.cls(MODREQ, "ModuleRequirement")
+    init = req.methods.get("__init__")
+    if init is None:
+        raise AnalysisError("ModuleRequirement.__init__ not found")
+    T = types_of(repo)
+    sides = [p.arg for p in init.params[1:] if p.annotation is not None and _carrying(repo, T.ann(init.module, p.annotation))]
+    fields: dict[str, set[str]] = {}
+    for _ in range(3):
+        for n in own_nodes(init.node):
+            pairs = []
+            if isinstance(n, ast.Assign):
+                for t in n.targets:
+                    if isinstance(t, ast.Tuple) and isinstance(n.value, ast.Tuple) and len(t.elts) == len(n.value.elts):
+                        pairs += list(zip(t.elts, n.value.elts))
+                    else:
+                        pairs.append((t, n.value))
+            elif isinstance(n, ast.AnnAssign) and n.value is not None:
+                pairs.append((n.target, n.value))
+            for t, v in pairs:
+                if isinstance(t, ast.Attribute) and isinstance(t.value, ast.Name) and t.value.id == "self":
+                    got = fields.setdefault(t.attr, set())
+                    for x in ast.walk(v):
+                        if isinstance(x, ast.Name) and x.id in sides:
+                            got.add(x.id)
+                        if isinstance(x, ast.Attribute) and isinstance(x.value, ast.Name) and x.value.id == "self" and x.attr in fields:
+                            got |= fields[x.attr]
+    acc: dict[str, set[str]] = {k: set(v) for k, v in fields.items()}
+    for name, m in req.methods.items():
+        if m.is_property:
+            got: set[str] = set()
+            for r in own_nodes(m.node):
+                if isinstance(r, ast.Return) and r.value is not None:
+                    for x in ast.walk(r.value):
+                        if isinstance(x, ast.Attribute) and isinstance(x.value, ast.Name) and x.value.id == "self":
+                            got |= fields.get(x.attr, set())
+            acc[name] = got
+    return acc, sides
+
+
+def _stores_of_field(repo: Repo, field_name: str) -> list[tuple[FuncInfo, ast.AST]]:
+    out = []
+    for ci in _matcher_classes(repo):
+        for m in [*ci.methods.values(), *ci.extra_methods]:
+            for n in own_nodes(m.node):
+                if isinstance(n, ast.Attribute) and isinstance(n.ctx, ast.Store) and n.attr == field_name and isinstance(n.value, ast.Name) and n.value.id == "self":
+                    out.append((m, n))
+    return out
+
+
 def run_r1(repo: Repo, res: Result) -> None:
     T = types_of(repo)
-    matcher = repo.cls(MATCHER, "RuleMatcher")
-    match = matcher.methods.get("match")
-    if match is None:
-        raise AnalysisError("RuleMatcher.match not found")
-    conv_calls = [c for c in calls_in(match.node) if is_attr_call(c, "_updated_module_requirements")]
-    find_calls = [c for c in calls_in(match.node) if is_attr_call(c, "_find_rule_violations")]
-    ok = len(conv_calls) == 1 and len(find_calls) == 1 and cfg_of(match).dominates(stmt_of(conv_calls[0]), stmt_of(find_calls[0])) and not conds(match, conv_calls[0])
-    res.add("C11.R1", f"{match.relpath}::{match.qualname}::conversion dominates evaluation", ok, "regexes are converted to module names before any graph query, unconditionally" if ok else "the regex conversion does not unconditionally precede the evaluation of the rule (a stale or missing conversion is evaluated)", where(match, match.node), kind="dominance")
-    upd = matcher.methods.get("_updated_module_requirements")
-    if upd is None:
-        raise AnalysisError("RuleMatcher._updated_module_requirements not found")
-    convs = [c for c in calls_in(upd.node) if is_attr_call(c, "convert")]
-    sides = sorted(norm(c.args[0]).split(".")[-1] for c in convs if c.args)
-    ok = sides == ["importees_as_specified_by_user", "importers_as_specified_by_user"] and all(not conds(upd, c) for c in convs) and all(len(c.args) == 2 and dotted(c.args[1]) == upd.param_names[1] for c in convs)
-    res.add("C11.R1", f"{upd.relpath}::{upd.qualname}::both sides converted", ok, "importers and importees are both converted against the evaluable being checked" if ok else f"conversion covers {sides} (conditions: {[norm(e) for c in convs for e, _ in conds(upd, c)]}): a side keeps its regex or is converted against another architecture", where(upd, upd.node), kind="structural")
-    early = [s for s in own_nodes(upd.node) if isinstance(s, ast.Return)]
-    res.add("C11.R1", f"{upd.relpath}::{upd.qualname}::no early return", not early, "conversion runs to completion on every call" if not early else f"`{header(early[0])}` skips the conversion (e.g. when a previous evaluation already converted)", where(upd, upd.node), kind="structural")
-    # raw requirement must not be read outside the conversion
-    n = 0
-    for cls in [matcher, *repo.subclasses(matcher)]:
-        for m in cls.methods.values():
-            if m.name in ("__init__",) or m is upd:
+    entries, fresh, why_not_fresh = _entry_points(repo)
+    if not entries:
+        raise AnalysisError("no implementation of the matcher entry point found")
+    accessors, sides = _requirement_sides(repo)
+    classes = _matcher_classes(repo)
+    nq = 0
+    for entry in entries:
+        view = inline_view(repo, entry, T, allow=_allow_r1, max_depth=4)
+        fn = Fn(repo, view)
+        cfg = cfg_of(view)
+        ev = next((p.arg for p in view.params[1:] if p.annotation is not None and any(m[0] == "cls" and m[1].endswith(".EvaluableArchitecture") for m in _members(T.ann(view.module, p.annotation)))), view.param_names[1] if len(view.param_names) > 1 else "")
+        calls = [c for c in own_nodes(view.node) if isinstance(c, ast.Call)]
+        convs = [c for c in calls if any(f.fq == CONVERT_FQ for f in fn.callees(c)[0])]
+        queries = [c for c in calls if _query_call(fn, c, ev)]
+        base = f"{entry.relpath}::{entry.qualname}::"
+        if not queries:
+            raise AnalysisError(f"{entry.fq}: no graph query on `{ev}` found in the inlined view (rule would pass vacuously)")
+        nq += len(queries)
+        # ---- (1) the conversion runs on every evaluation, before any query, against the evaluable being queried
+        problems: list[tuple[str, ast.AST, bool]] = []  # (text, node, depends on matcher state)
+        if not convs:
+            problems.append(("the regex filters are never converted to module names before the graph is queried", queries[0], True))
+        for c in convs:
+            lits = flatten(fn.conds_all(c))
+            if lits:
+                state = any(isinstance(x, ast.Name) and x.id == "self" for l, _ in lits for x in ast.walk(l))
+                problems.append((f"the conversion `{norm(c, 60)}` only runs if `{' and '.join(('' if p else 'not ') + norm(l, 50) for l, p in lits)}`", c, state))
+            for q in queries:
+                if not cfg.dominates(stmt_of(c), stmt_of(q)):
+                    problems.append((f"the query `{norm(q, 50)}` can be reached without the conversion `{norm(c, 50)}`", q, True))
+                    break
+            arg = c.args[1] if len(c.args) > 1 else next((k.value for k in c.keywords if k.arg not in (None, "modules")), None)
+            if not (isinstance(arg, ast.Name) and arg.id == ev and all(d.kind == "param" for d in fn.reaching(ev, arg))):
+                problems.append((f"`{norm(c, 70)}` converts against `{norm(arg) if arg is not None else '?'}`, not against the evaluable `{ev}` being checked", c, True))
+        # ---- (5) the input of the conversion is the requirement as specified, not something an earlier evaluation left behind
+        for c in convs:
+            inp = c.args[0] if c.args else next((k.value for k in c.keywords), None)
+            x = fn.expand(inp) if inp is not None else None
+            for a in ast.walk(x) if x is not None else []:
+                fk = field_key(a) if isinstance(a, ast.Attribute) and isinstance(a.value, ast.Name) and a.value.id == "self" else None
+                if fk is None:
+                    continue
+                late = [(m, n) for m, n in _stores_of_field(repo, a.attr) if m.name != "__init__"]
+                if late:
+                    m, n = late[0]
+                    problems.append((f"`{fk}`, from which the conversion reads the filters as specified by the user, is overwritten in {m.qualname} (`{header(stmt_of(n))[:70]}`): a later evaluation converts what an earlier one left behind", c, True))
+        key = base + "conversion dominates evaluation"
+        hard = [p for p in problems if p[2]]
+        if not problems:
+            res.add("C11.R1", key, True, "regexes are converted to module names before any graph query, unconditionally, against the evaluable being checked", where(view, view.node), kind="dominance")
+        elif fresh and all("converts against" not in p[0] and "never converted" not in p[0] for p in problems):
+            res.add("C11.R1", key, True, f"the conversion depends on matcher state ({problems[0][0]}), but Rule.assert_applies creates a new matcher for every call, so no state survives between evaluations", where(view, problems[0][1]), kind="dominance")
+        elif hard:
+            extra = f" - and {why_not_fresh}, so the state survives between evaluations" if not fresh and why_not_fresh else ""
+            res.add("C11.R1", key, False, f"{hard[0][0]}{extra}: a stale or missing conversion is evaluated", where(view, hard[0][1]), kind="dominance")
+        else:
+            res.undecide("C11.R1", key, problems[0][0], where(view, problems[0][1]))
+        # ---- (2) both sides are converted
+        conv_side: dict[int, set[str]] = {}
+        acc_text: dict[int, str] = {}
+        for i, c in enumerate(convs):
+            inp = c.args[0] if c.args else next((k.value for k in c.keywords), None)
+            x = fn.expand(inp) if inp is not None else None
+            got: set[str] = set()
+            txt = norm(inp) if inp is not None else "?"
+            for a in ast.walk(x) if x is not None else []:
+                if isinstance(a, ast.Attribute) and a.attr in accessors and any(m[0] == "cls" and m[1].endswith(".ModuleRequirement") for m in _members(fn.type_of(a.value))):
+                    got |= accessors[a.attr]
+                    txt = a.attr
+            conv_side[i] = got
+            acc_text[i] = txt
+        covered = set().union(*conv_side.values()) if conv_side else set()
+        distinct = len({acc_text[i] for i in conv_side}) >= min(2, len(sides))
+        ok = bool(convs) and set(sides) <= covered and distinct
+        if convs and any(not v for v in conv_side.values()):
+            res.undecide("C11.R1", base + "both sides converted", f"the input `{[acc_text[i] for i, v in conv_side.items() if not v][0]}` of a conversion is not an accessor of the module requirement", where(view, convs[0]))
+        else:
+            res.add("C11.R1", base + "both sides converted", ok, "importers and importees are both converted against the evaluable being checked" if ok else f"the conversion covers {sorted(acc_text.values())} only: a side ({', '.join(sorted(set(sides) - covered)) or 'one of ' + ', '.join(sides)}) keeps its regex filters or is converted twice", where(view, convs[0] if convs else view.node), kind="structural")
+        # ---- (3) the queries receive converted filters only
+        ids = {id(c): f"conv:{i}" for i, c in enumerate(convs)}
+        prov = Provenance(fn, lambda call: {ids[id(call)]} if id(call) in ids else None, lambda a: _scalar_type(fn.type_of(a)))
+        for q in queries:
+            args = [*q.args, *[k.value for k in q.keywords]]
+            bad = ""
+            reach: set[str] = set()
+            for a in args:
+                t = prov.of(a)
+                pre = sorted(x for x in t if x.startswith("pre:"))
+                cv = {x for x in t if x.startswith("conv:")}
+                reach |= cv
+                if pre:
+                    bad = bad or f"`{norm(a, 60)}` is read from `{pre[0][4:]}` as it was before this evaluation's conversion (the un-converted or a stale requirement)"
+                elif not cv:
+                    bad = bad or f"`{norm(a, 60)}` does not come from the conversion"
+            if not bad and convs:
+                got = set().union(*[conv_side[int(x.split(':')[1])] for x in reach]) if reach else set()
+                if not set(sides) <= got:
+                    bad = f"only the conversion of {sorted(got)} reaches the query"
+            res.add("C11.R1", repo.key(view, stmt_of(q)) + f" [{norm(q.func, 80)}]", not bad, "queries the graph with the converted requirement" if not bad else f"{bad}: regex filters reach a graph query", where(view, q), kind="flow")
+        # ---- (4) consumers outside the view (detectors, message generators) read the converted requirement
+        seen: set[tuple[str, str]] = set()
+        for c in calls:
+            if not (isinstance(c.func, ast.Attribute) and isinstance(c.func.value, ast.Name) and c.func.value.id == "self"):
                 continue
-            for node in own_nodes(m.node):
-                if isinstance(node, ast.Attribute) and node.attr == "_module_requirement" and isinstance(node.ctx, ast.Load):
-                    n += 1
-                    res.add("C11.R1", repo.key(m, stmt_of(node)) + " [raw requirement]", False, f"{m.qualname} reads the un-converted requirement `{norm(parent(node))}`: regex filters reach a graph query / detector / message generator", where(m, node), kind="flow")
-                if isinstance(node, ast.Attribute) and node.attr == "_updated_module_requirement" and isinstance(node.ctx, ast.Load):
-                    n += 1
-                    res.add("C11.R1", repo.key(m, stmt_of(node)) + f" [{norm(parent(node), 80)}]", True, "reads the converted requirement", where(m, node), kind="flow")
-    res.floor("C11.R1", 6, n)
+            roots = [f for f in fn.callees(c)[0] if f.cls in classes]
+            if not roots:
+                continue
+            reach_f = reachable_funcs(repo, roots, byname=False)
+            for m in reach_f:
+                if m.cls not in classes or isinstance(m.node, ast.Lambda) and m.outer is None:
+                    continue
+                for node in own_nodes(m.node):
+                    if not (isinstance(node, ast.Attribute) and isinstance(node.ctx, ast.Load) and isinstance(node.value, ast.Name) and node.value.id == "self"):
+                        continue
+                    if not _carrying(repo, T.expr(m, node)):
+                        continue
+                    up = parent(node)
+                    if isinstance(up, ast.Attribute) and _scalar_type(T.expr(m, up)):
+                        continue  # only a flag of the requirement is read
+                    t = prov.at(stmt_of(c), f"self.{node.attr}")
+                    pre = [x for x in t if x.startswith("pre:")]
+                    okr = not pre and any(x.startswith("conv:") for x in t)
+                    k = (m.fq, norm(stmt_of(node)) + node.attr)
+                    if k in seen and okr:
+                        continue
+                    seen.add(k)
+                    nq += 1
+                    res.add("C11.R1", repo.key(m, stmt_of(node)) + f" [{norm(up if isinstance(up, ast.Attribute) else node, 80)}]", okr, "reads the converted requirement" if okr else f"{m.qualname} reads `{norm(up if isinstance(up, ast.Attribute) else node)}`, which at the call `{norm(c, 50)}` is {'the un-converted (or a stale) requirement' if pre else 'not the result of the conversion'}: regex filters reach a detector / message generator", where(m, node), kind="flow")
+    res.floor("C11.R1", 4, nq)
 
 
 # --------------------------------------------------------------------------------------------------------------- C11.R2
